@@ -35,6 +35,15 @@ var Properties = map[string]func(*Ctx){
 	"C16": C16,
 	"C04": C04,
 	"C15": C15,
+	"C13": C13,
+}
+
+func C13(c *Ctx) {
+	R14Config(c)
+	R15ConfigOrder(c)
+	R15EnumFam(c)
+	R15ErrDiscipline(c)
+	R16ShellSink(c)
 }
 
 func C15(c *Ctx) {
